@@ -374,6 +374,7 @@ def parse_verus_stderr(stderr):
 VERDICT_MSGS = (
     'postcondition not satisfied',
     'precondition not satisfied',
+    'precondition not met',
     'invariant not satisfied',
     'possible arithmetic underflow/overflow',
     'possible division by zero',
